@@ -10,6 +10,8 @@
   C18.7  the record parser converts ids, coordinates and lengths by plain truncation: int(<column value>) (through
          float() or math.trunc at most), never round()/ceil()/+0.5; confidence, orientation and HitEnum are passed on as read
   C18.8  every read parses the file it is given (no remembered table: readFile returns read_csv(file, ...) on every path)
+  C18.9  the XMAP reader that COMA wires up looks pair coordinates up in the maps that were aligned: the pair parser
+         receives Program.referenceMaps / Program.queryMaps (the trimmed queries), not an earlier version of them
 Declined: value round-trip as a whole (two decimals of the confidence, coordinate lookup values).
 """
 from __future__ import annotations
@@ -62,6 +64,39 @@ def truncation(ck):
     ck.floor("C18.7 integer fields converted in BionanoAlignment.parse", n, INT_FIELDS)
 
 
+def parser_maps(ck):
+    from ..rules.common import self_attr
+    p = ck.ctx.p
+    ck.clause("C18.9", "the wired-up reader's pair parser holds the maps that are aligned (trimmed queries)")
+    init = p.get_function("src.program:Program.__init__")
+    own = lambda callee: callee.cls is init.cls and callee is not init
+    n = 0
+    for pa in explore(ck, init, follow=own, unroll=(0, 1)):
+        if pa.outcome not in ("fall", "return"):
+            continue
+        heap = pa.state.heap
+        q_final, r_final = heap.get(self_attr("queryMaps")), heap.get(self_attr("referenceMaps"))
+        for e in pa.events:
+            if e.kind != "setattr":
+                continue
+            for x in T.subterms(e.term):
+                if x[0] == "new" and "AlignmentPairWithDistanceParser" in x[1] or (x[0] == "new" and x[1].endswith("AlignmentPairParser")):
+                    a = dict(x[2])
+                    if "queries" not in a and "queryMaps" not in a and len(a) < 2:
+                        continue
+                    n += 1
+                    vals = list(a.values())
+                    w = where(init, e.node)
+                    ck.judge(q_final is not None and q_final in vals, "C18.9", "Program.__init__:parser-queries", w,
+                             "the pair parser is given the query maps that are aligned and stored in Program.queryMaps (after trimming)",
+                             found="; ".join(T.show(v)[:100] for v in vals), required=T.show(q_final)[:160] if q_final else "self.queryMaps")
+                    ck.judge(r_final is not None and r_final in vals, "C18.9", "Program.__init__:parser-references", w,
+                             "the pair parser is given the reference maps that are aligned", found="; ".join(T.show(v)[:100] for v in vals),
+                             required=T.show(r_final)[:160] if r_final else "self.referenceMaps")
+        break
+    ck.floor("C18.9 pair parser constructions in Program.__init__", n, 1)
+
+
 def run(ck):
     ck.clause("C18.1", "writer header / record / reader column tables agree (as C02.1, C02.2)")
     ck.clause("C18.2", "framing: separators, comment prefix, header prefix, header=False")
@@ -73,6 +108,7 @@ def run(ck):
     ctx = ck.ctx
     p = ctx.p
     truncation(ck)
+    parser_maps(ck)
     w = extract_writer(ck)
     r = extract_reader(ck)
     column_table(ck, w, r, "C18.1")
